@@ -151,7 +151,7 @@ theorem exec_sound (m : Mon) (x : MS) (hi : MInv x) (ha : Agree m x) (cl : CallL
     CallSound m x cl c' := by
   obtain ⟨hgate, tl', hs, hc'⟩ := executeOp_inv hx
   obtain ⟨s1, hs1, _, htl'⟩ := execute_ok hs
-  obtain ⟨h2, hn, _, hs1'⟩ := setExecute_ok hs1
+  obtain ⟨h2, hn, hpd, hs1'⟩ := setExecute_ok hs1
   have hled : c'.tl.ledger = updId x.c.tl.ledger op.id DONE_LEDGER := by rw [hc', htl', hs1']
   have hlog : c'.tl.log = Ev.exec op.id x.c.tl.now :: x.c.tl.log := by rw [hc', htl', hs1']
   have hmin : c'.tl.minDelay = x.c.tl.minDelay := by rw [hc', htl', hs1']
@@ -159,8 +159,28 @@ theorem exec_sound (m : Mon) (x : MS) (hi : MInv x) (ha : Agree m x) (cl : CallL
   have hac : c'.ac = x.c.ac := by rw [hc']
   refine ⟨?_, ?_, ?_⟩
   · intro ok0 eq0
-    have hstate := execState_none x c' k op hk (stateOf_ready.mpr ⟨h2, hn⟩)
+    have hstate0 := execState_none x c' k op hk (stateOf_ready.mpr ⟨h2, hn⟩)
       (by rw [hled, updId_same]; rfl) ok0 eq0
+    have hpred : predBad m k = none := by
+      unfold predBad
+      rw [ha.defs, hk]
+      simp only
+      rw [if_neg]
+      rintro ⟨hnz, hnd⟩
+      rcases hpd with hz | hl1
+      · exact hnz hz
+      · apply hnd
+        rw [ha.ghost]
+        have hc := hi.tl.coh op.pred
+        cases hg : ghost x.c.tl.log op.pred with
+        | unset => rw [hg] at hc; simp only [Coh] at hc; omega
+        | done => rfl
+        | pending l d mm =>
+          rw [hg] at hc; simp only [Coh] at hc
+          have : 2 ≤ satAdd l d := by unfold satAdd U32_MAX; split <;> omega
+          omega
+    have hstate : firstSome (predBad m k) (execState (modelObs x.c x.defs ok0 eq0) (modelObs c' x.defs true none) k) = none := by
+      rw [hpred]; exact hstate0
     apply verdictCall_none
     · apply idle_none_of_not_advance'; intro n h; rw [hcall] at h; cases h
     · exact undone_none x.defs ok0 true eq0 none (fun id h1 => applyE_ledger_one hx h1)
